@@ -8,15 +8,15 @@ PROP = {
          "thorough": {"n": 30000, "workers": 14, "args": ["workers=14"]}},
     ],
     "trusted_base": BASE_TB + [
-        "Model/Undo.lean keeps one heap entry per identity; the dead twin copies below a re-identified array element are represented by the `tw` flag only (validated by the differential replay incl. the skip rule)",
+        "Model/Undo.lean keeps one heap entry per identity (the registered instance); it models the tree WITH the repair hooks/fix-c14-reconcile-parent.patch (switch `fixReconcileParent := true`; the `false` instance is the tree before it and is kept for the witnesses of the old behaviour)",
         "forward edits are op-fed: the json layer's construction of forward operations is tied by the crdt engine (C01/C07), not here; every fed operation is checked to carry the ticket IssueTimeTicket would issue (`fresh=true`)",
     ],
-    "level_text": "Theorems in Lean over every single-replica history state (unbounded size, tombstones, nested containers): undo∘do and redo∘undo∘do restore Marshal() for the content alphabet under an explicit side condition (the edited container has no removed or twinned ancestor), lifted over the stacks up to the generated depth limit; totality for move/set-by-index; negation witnesses for the re-identification defect; tied to pkg/document (history.go, executeUndoRedo, operations/*.Execute reverse construction, ReconcileCreatedAt, re-ticketing) by differential replay in which the model computes the undo/redo operations itself.",
+    "level_text": "Theorems in Lean over every single-replica history state (unbounded size, tombstones, nested containers): undo∘do and redo∘undo∘do restore Marshal() for the content alphabet under an explicit side condition (the edited container has no removed ancestor), lifted over the stacks up to the generated depth limit; totality for move/set-by-index; witnesses of the repaired re-identification defect for the switch-off model and `…_fixed` theorems for the repaired one; tied to pkg/document (history.go, executeUndoRedo, operations/*.Execute reverse construction, ReconcileCreatedAt, re-ticketing) by differential replay in which the model computes the undo/redo operations itself.",
     "level_note": "Trusted: Lean kernel; the hand-written Model/Undo.lean agrees with the Go code as far as the `undo` engine's enumerated and random programs exercise it; text and tree undo are not modelled.",
     "technique": "Lean 4 proof (frame/congruence lemmas over the element heap, induction over the stacks) + differential replay of Document.Update/Undo/Redo",
     "partial": [
         "text insert/delete/replace/style undo and tree undo are not modelled (engine and theorems cover objects, arrays incl. move/set-by-index, counters)",
-        "content restoration is false once an undo/redo re-identified an array element that is a container/counter or is referenced later in the same entry (known finding F-C14-array-reid); theorems carry the side condition, witnesses are proved",
+        "the re-identification defect (former F-C14-array-reid: stale parent, same-entry, dead twin) is repaired (known_findings.json `fixed`, 868855dc); its witnesses S1..S6 are regression traces in corpus/C14 and `…_fixed` theorems; the harness no longer tolerates any of it (a recurrence is a plain violation; `reid=old` re-enables the old predicates for a tree without the repair)",
         "depth-k theorems (undo_stack_inv_array / redo_stack_inv_array) cover the mixed alphabet of LEAF values (object set/delete, counter increase on object members, array insert/delete of leaves, incl. ReconcileCreatedAt); container-valued overwrite/delete: undo proved at depth 1 for tree-shaped subtrees (no removed descendants, no moved array elements), redo of container-valued edits and depth k with container values not proved; arrays with moved elements are outside PlainArrs",
         "array move / set-by-index: undo_total only (as the property says)",
         "inside the region of a listed finding the recorded-content oracle is switched off for the rest of the trace (correspondence with the model continues)",
